@@ -418,6 +418,10 @@ func runC15(c *wk.Ctx) {
 // with an incompatible property type somewhere can never be consumed), in places generated pairs do not reach:
 // a recursive consumer against a finite unrolled producer, references into an external namespace behind which
 // different objects were linked, and a one-of whose two keys share one member object.
+type c15T struct {
+	A any `json:"a"`
+}
+
 func c15Directed(c *wk.Ctx) {
 	intT := func() schema.Type { return schema.NewIntSchema(nil, nil, nil) }
 	strT := func() schema.Type { return schema.NewStringSchema(nil, nil, nil) }
@@ -499,6 +503,50 @@ func c15Directed(c *wk.Ctx) {
 		pair{"string enum {A,B} <- string enum {A,B}", strEnum, strEnum, false},
 		pair{"string <- int enum {65,66}", strT, intEnum, true},
 		pair{"int <- string enum {A,B}", intT, strEnum, true})
+	// the same producers built with the typed constructors: the verdict is about the schemas, not about which
+	// constructor built them
+	i64 := func(v int64) *int64 { return &v }
+	strTyped := func() schema.TypedType[string] { return schema.NewStringSchema(nil, nil, nil) }
+	intTyped := func() schema.TypedType[int64] { return schema.NewIntSchema(nil, nil, nil) }
+	listOf := func(min, max *int64) func() schema.Type {
+		return func() schema.Type { return schema.NewListSchema(strT(), min, max) }
+	}
+	typedListOf := func(min, max *int64) func() schema.Type {
+		return func() schema.Type { return schema.NewTypedListSchema[string](strTyped(), min, max) }
+	}
+	typedIntListOf := func(min, max *int64) func() schema.Type {
+		return func() schema.Type { return schema.NewTypedListSchema[int64](intTyped(), min, max) }
+	}
+	mapOf := func(min, max *int64) func() schema.Type {
+		return func() schema.Type { return schema.NewMapSchema(strT(), intT(), min, max) }
+	}
+	typedMapOf := func(min, max *int64) func() schema.Type {
+		return func() schema.Type { return schema.NewTypedMapSchema[string, int64](strTyped(), intTyped(), min, max) }
+	}
+	objOf := func(v func() schema.Type) func() schema.Type {
+		return func() schema.Type { return schema.NewObjectSchema("T", map[string]*schema.PropertySchema{"a": prop(v(), true)}) }
+	}
+	typedObjOf := func(v func() schema.Type) func() schema.Type {
+		return func() schema.Type { return schema.NewTypedObject[c15T]("T", map[string]*schema.PropertySchema{"a": prop(v(), true)}) }
+	}
+	inList := func(f func() schema.Type) func() schema.Type {
+		return func() schema.Type { return schema.NewListSchema(f(), nil, nil) }
+	}
+	pairs = append(pairs,
+		pair{"list[string] 5..9 <- typed list[string] 0..2 (sizes cannot meet)", listOf(i64(5), i64(9)), typedListOf(i64(0), i64(2)), true},
+		pair{"list[string] 5..9 <- list[string] 0..2 (sizes cannot meet)", listOf(i64(5), i64(9)), listOf(i64(0), i64(2)), true},
+		pair{"list[string] 5.. <- typed list[string] ..2 (sizes cannot meet)", listOf(i64(5), nil), typedListOf(nil, i64(2)), true},
+		pair{"list[string] 5..9 <- typed list[string] 5..9", listOf(i64(5), i64(9)), typedListOf(i64(5), i64(9)), false},
+		pair{"list[string] <- typed list[string]", listOf(nil, nil), typedListOf(nil, nil), false},
+		pair{"list[string] <- typed list[int]", listOf(nil, nil), typedIntListOf(nil, nil), true},
+		pair{"list of list[string] 5..9 <- list of typed list[string] 0..2", inList(listOf(i64(5), i64(9))), inList(typedListOf(i64(0), i64(2))), true},
+		pair{"map[string]int 3.. <- typed map[string]int ..1 (sizes cannot meet)", mapOf(i64(3), nil), typedMapOf(nil, i64(1)), true},
+		pair{"map[string]int 3.. <- map[string]int ..1 (sizes cannot meet)", mapOf(i64(3), nil), mapOf(nil, i64(1)), true},
+		pair{"map[string]int <- typed map[string]int", mapOf(nil, nil), typedMapOf(nil, nil), false},
+		pair{"object{a:int} <- typed object{a:int}", objOf(intT), typedObjOf(intT), false},
+		pair{"object{a:int} <- typed object{a:string}", objOf(intT), typedObjOf(strT), true},
+		pair{"typed object{a:int} <- object{a:string}", typedObjOf(intT), objOf(strT), true},
+		pair{"typed list[string] 5..9 <- list[string] 0..2 (sizes cannot meet)", typedListOf(i64(5), i64(9)), listOf(i64(0), i64(2)), true})
 	for _, pr := range pairs {
 		c.Note("ValidateCompatibility directed: " + pr.name)
 		c.Count("pairs")
